@@ -1,5 +1,5 @@
 //! C07 — styled-run extraction follows standard SGR semantics.
-use checks::oracle::{check_stream, first_diff, has_kind_replacement, real_chars};
+use checks::oracle::{check_stream, first_diff, real_chars};
 use proptest::prelude::*;
 use serde_json::{json, Value};
 use vcore::drive::{prop_par, Verdict};
@@ -56,9 +56,6 @@ fn check_groups(groups: &[&str], with_base: bool) -> Result<Option<bool>, String
     let mut a = if with_base { BASE.to_vec() } else { vec![] };
     a.extend(seq(groups));
     a.extend_from_slice(b"x\xc3\xa9");
-    if has_kind_replacement(&a) {
-        return Ok(None);
-    }
     check_stream(&a, &[])?;
     // oracle 2: separate sequences, extractor against itself
     let mut b = if with_base { BASE.to_vec() } else { vec![] };
